@@ -157,6 +157,30 @@ def lookup_order(F, rep):
                             a = peel(v["args"][0])
                             if a.get("k") == "Path" and len(binds) == 2 and a.get("hid") == binds[1]["hid"]:
                                 ok_ret = True
+            if n.get("k") == "MethodCall" and n["m"] in ("find", "rfind", "find_map", "position", "rposition") and loop_i is None:
+                # the same scan as an iterator chain: self.stack.iter().rev().find(|(n, _)| n == name)
+                chain = []
+                cur = peel(n["recv"])
+                while cur.get("k") == "MethodCall":
+                    chain.append(cur["m"])
+                    cur = peel(cur["recv"])
+                if cur.get("k") == "Field" and cur["name"] == "stack":
+                    loop_i = i
+                    backwards = (chain.count("rev") % 2 == 1) != (n["m"] in ("rfind", "rposition"))
+                    ok_rev = backwards and "iter" in chain and not (set(chain) - {"rev", "iter", "enumerate"})
+                    # find() yields the first element of that order whose name equals the parameter; it must be what is returned
+                    cl = [a for a in n["args"] if a.get("k") == "Closure"]
+                    prm_names = {b["name"] for prm in fn["params"] for b in pat_bindings(prm["pat"])}
+                    compares = bool(cl) and any(b_.get("k") == "Binary" and b_.get("op") == "Eq" and
+                                                any(x.get("name") in prm_names for x in nodes(b_, "Path") if x.get("res") == "Local")
+                                                for b_ in nodes(cl[0]["body"]))
+                    fl_ = Flow(fn, body)
+                    res_hids = {hid for hid, o in fl_.origin.items() if o.get("src") is not None and any(x is n for x in nodes(o["src"]))}
+                    res_hids = fl_.derived(res_hids) if res_hids else set()
+                    for r in nodes(body, "Ret"):
+                        v = peel(r["e"])
+                        if v.get("k") == "Call" and (callee(v) or "").endswith("Result::Ok") and Flow.mentions(v["args"][0], res_hids):
+                            ok_ret = compares
             if n.get("k") in ("Call", "MethodCall") and callee(n) == R + "lookup_global" and glob_i is None:
                 glob_i = i
     rep.ob("LOOKUP", "Resolver::lookup|innermost-first", bool(ok_rev),
